@@ -317,6 +317,9 @@ func (g *Gen) JSONValue(t *Type, depth int) *Value {
 		v := &Value{K: VObj, O: []Member{}}
 		if in.OneOf {
 			f := pick(g, in.Fields, "oneofpick")
+			if depth > 6 {
+				f = in.Fields[0] // always a scalar: ends every recursion through @oneOf members
+			}
 			v.O = append(v.O, Member{f.Name, g.JSONValue(f.T().Required(), depth+1)})
 			return v
 		}
@@ -555,8 +558,8 @@ func (g *Gen) Literal(t *Type, depth int, vars bool, inList bool) string {
 		in := g.S.Input(t.Name)
 		if in.OneOf {
 			f := pick(g, in.Fields, "oneofpick")
-			if g.backRef(f.T()) {
-				f = in.Fields[0]
+			if g.backRef(f.T()) || depth > 6 {
+				f = in.Fields[0] // always a scalar: ends every recursion through @oneOf members
 			}
 			ft := f.T().Required()
 			var val string
